@@ -161,7 +161,7 @@ def handleEc2On (W : Nat) : List String → String
       | none => "0"
       | some md =>
         if leVal A ≥ 2 ^ m ∨ leVal B ≥ 2 ^ m ∨ leVal x ≥ 2 ^ m ∨ leVal y ≥ 2 ^ m then "0"
-        else "1 " ++ b (ec2IsOnA ⟨⟨m, md⟩, leVal A, leVal B⟩ (leVal x ||| (hx <<< m)) (leVal y ||| (hy <<< m)))
+        else "1 " ++ b (ec2IsOnA ⟨⟨m, md⟩, leVal A, leVal B⟩ (leVal x ^^^ pmul hx md) (leVal y ^^^ pmul hy md))
     | _, _, _, _, _, _, _, _, _, _ => "bad-op"
   | _ => "bad-op"
 
